@@ -140,3 +140,34 @@ func (s *scriptedSubscriber) Close() error {
 	}
 	return nil
 }
+
+// directSubscriber hands out plain channels that the environment feeds directly (no pump goroutine);
+// Close closes them. For harnesses that do not exercise subscription cancellation.
+type directSubscriber struct {
+	mu     sync.Mutex
+	chans  []chan *Message
+	closed bool
+}
+
+func (s *directSubscriber) Subscribe(ctx context.Context, topic string) (<-chan *Message, error) {
+	s.mu.Lock()
+	defer s.mu.Unlock()
+	if s.closed {
+		return nil, errScripted
+	}
+	ch := make(chan *Message)
+	s.chans = append(s.chans, ch)
+	return ch, nil
+}
+
+func (s *directSubscriber) Close() error {
+	s.mu.Lock()
+	defer s.mu.Unlock()
+	if !s.closed {
+		s.closed = true
+		for _, c := range s.chans {
+			close(c)
+		}
+	}
+	return nil
+}
